@@ -167,6 +167,16 @@ func streamDrv(c *ctx) {
 			jobs = append(jobs, job{path, 0, []arrival{{8, cl}}, "none", r.U64(), true}) // the same with the debug flag on
 		}
 	}
+	// a busy network: 300 datagrams from other controllers (and runts) within 60 ms, then the awaited reply - the
+	// broadcast path must still be reading when it comes
+	{
+		many := []arrival{}
+		for i := 0; i < 300; i++ {
+			many = append(many, arrival{5 + i/5, []string{"wrong-serial", "short", "wrong-serial", "long"}[i%4]})
+		}
+		many = append(many, arrival{90, "valid"})
+		jobs = append(jobs, job{"broadcast", 0, many, "none", r.U64(), false})
+	}
 	// a controller configured with protocol "any" (UDP) that stays silent, answers late, answers well
 	for _, arr := range [][]arrival{{}, {{8, "valid"}}, {{int(T.Milliseconds()) * 18 / 10, "valid"}}, {{8, "short"}}} {
 		jobs = append(jobs, job{"any", 0, arr, "none", r.U64(), false})
@@ -293,6 +303,33 @@ func streamLock(c *ctx) {
 			}
 			c.w.Emit(fmt.Sprintf("lock %s reply-after=%d%s", path, delay.Milliseconds(), note), fmt.Sprintf("first:%s second:%s %s", o1, o2, within), "lock/"+path, "lock/second-"+o2)
 		}
+	}
+	// the reply to a call that has already timed out arrives at the shared port while the NEXT call (to another
+	// controller) is waiting for its own reply: it is not that call's business
+	{
+		bind := freePort()
+		late := newUDPResponder("127.0.0.1", func(req []byte) []step {
+			if len(req) != 64 {
+				return nil
+			}
+			return []step{{T + 60*time.Millisecond, cardReply(1000011, 111)}}
+		})
+		prompt := newUDPResponder("127.0.0.1", echo(func() time.Duration { return 120 * time.Millisecond }))
+		u1 := newRealClient(clientCfg{"broadcast", bind, "", false}, 1000011, late.addr())
+		u2 := newRealClient(clientCfg{"broadcast", bind, "", false}, 1000012, prompt.addr())
+		_, err1 := getCard(u1, 1000011, 111)
+		res, err2 := getCard(u2, 1000012, 222)
+		o1 := map[bool]string{true: "ok", false: "err"}[err1 == nil]
+		o2 := "ok"
+		switch {
+		case err2 != nil:
+			o2 = "err"
+		case res == nil || res.CardNumber != 222:
+			o2 = "crossed"
+		}
+		late.close()
+		prompt.close()
+		c.w.Emit("lock-late broadcast", fmt.Sprintf("first:%s second:%s", o1, o2), "lock/late-reply-of-a-failed-call")
 	}
 	// a call that fails before it has a connection (TCP connect refused) must give the shared port back: the
 	// next call from the same fixed bind port, on another path, still gets its answer
